@@ -112,6 +112,7 @@ static void c04_run(uint64_t seed, uint64_t index, bool thorough) {
     Bytes other;
     { Rng ro = stream(seed, "other"); asn_TYPE_descriptor_t *ot = choose_type(ro);
       if(fillable(ot)) { void *ov = random_value(ot, ro.next(), 60); if(ov) { EncResult e = encode_to_vec(ot, ov, r.chance(1, 2) ? SY_DER : SY_XER); if(e.encoded >= 0) other = e.out; free_struct(ot, ov); } } }
+    BerHints hints; ber_collect_hints(td, vc.st, hints);
     free_struct(td, vc.st);
     sim_alloc_free_all_live();
     if(enc.empty()) { G.add("c04.skip.unencodable"); return; }
@@ -121,7 +122,7 @@ static void c04_run(uint64_t seed, uint64_t index, bool thorough) {
         for(unsigned q = 0; q < variants; q++) {
             Bytes D = kv.second;
             std::vector<std::string> applied;
-            if(sy == SY_DER && r.chance(1, 3)) { Bytes var; VariantStats vs; Rng rv(r.next()); if(ber_variant(D, rv, var, vs)) D = var; }
+            if(sy == SY_DER && r.chance(1, 3)) { Bytes var; VariantStats vs; Rng rv(r.next()); if(ber_variant(D, rv, var, vs, &hints)) { D = var; G.add("c04.variant.segmented", vs.segmented); } }
             if(q == 0) { /* truncation at a seeded offset only */ if(!D.empty()) D.resize((size_t)r.below(D.size())); applied.push_back("truncate"); }
             else transport_damage(D, r, &other, applied, 1 + (unsigned)r.below(4));
             if(D.size() > 65536) D.resize(65536);
